@@ -97,30 +97,31 @@ def run_kani(harnesses, scratch, repo, log, jobs=8, per_harness_timeout='30m', l
     return res
 
 
-def run_native(tests, scratch, repo, log, label='native'):
+def run_native(tests, scratch, repo, log, label='native', kind='native', threads=8):
     """closed ground facts evaluated natively on the real code (reported as evaluated, not proved)"""
     t0 = time.time()
     res = {'unit': label, 'backend': 'native-eval', 'status': 'undecided', 'checks': [], 'failures': [], 'reason': '', 'assumptions': []}
-    d = os.path.join(scratch, 'native')
+    d = os.path.join(scratch, kind)
+    modname = 'verif_native' if kind == 'native' else 'verif_replay'
     try:
-        splice.splice(repo, d, 'native')
+        splice.splice(repo, d, kind)
     except splice.SpliceError as e:
         res['reason'] = 'splice: %s' % e
         return res
     env = dict(os.environ, CARGO_NET_OFFLINE='true', CARGO_TARGET_DIR=os.path.join(CACHE, 'native-target'))
     os.makedirs(CACHE, exist_ok=True)
-    cmd = ['cargo', 'test', '--offline', 'verif_native', '--', '--test-threads', '8']
+    cmd = ['cargo', 'test', '--offline', modname, '--', '--test-threads', str(threads)]
     res['cmd'] = ' '.join(cmd)
     rc, out = _run(cmd, d, env, 3600)
     for t in tests:
-        m = re.search(r'test \S*verif_native::' + re.escape(t) + r' \.\.\. (\w+)', out)
+        m = re.search(r'test \S*' + modname + r'::' + re.escape(t) + r' \.\.\. (\w+)', out)
         if not m:
             res['reason'] = 'native test %s did not run: %s' % (t, out[-800:])
             return res
         ok = m.group(1) == 'ok'
         res['checks'].append({'name': 'native:' + t, 'ok': ok, 'detail': 'evaluated on the real code, not proved'})
         if not ok:
-            mm = re.search(r'---- \S*verif_native::' + re.escape(t) + r' stdout ----\n(.*?)(?:\n----|\nfailures:)', out, flags=re.S)
+            mm = re.search(r'---- \S*' + modname + r'::' + re.escape(t) + r' stdout ----\n(.*?)(?:\n----|\nfailures:)', out, flags=re.S)
             res['failures'].append({'unit': label, 'function': t, 'kind': 'native evaluation failed', 'clause': t,
                                     'rendered': (mm.group(1) if mm else out[-1500:])[:3000], 'counterexample': (mm.group(1) if mm else None),
                                     'backend': 'native-eval', 'tags': []})
@@ -149,3 +150,9 @@ def run(prop, pc, scratch, tier, seed, repo, verif, log):
     if n:
         out.append(run_native(n, scratch, repo, log))
     return out
+
+
+def replay_search(tests, scratch, repo, log):
+    """native replay search (kx/replay/*.rs): concrete counterexamples on the real code; never proves anything"""
+    r = run_native(tests, scratch, repo, log, label='replay-search', kind='replay', threads=1)
+    return r
